@@ -31,6 +31,11 @@ type Block struct {
 	// others Verify); "vpp" - GetMissingPositions + VerifyPartialProof(remember=true) (partial forests).
 	Learn    []int  `json:"learn,omitempty"`
 	LearnHow string `json:"learnhow,omitempty"`
+	// Stale: right before this block (after prunes and learns) every forest applies a STALE TIP - a block
+	// adding this many leaves of another branch, all to be remembered - and undoes it again: a one-block
+	// reorganisation. The state is the same as before; the block that follows meets a forest that has
+	// just undone something.
+	Stale    int    `json:"stale,omitempty"`
 	Salt     int    `json:"salt,omitempty"` // branch id: added leaves hash as LeafHash(Salt*1e6+slot), so that leaves re-added on another branch after an undo differ
 	DM       string `json:"dm,omitempty"`   // deletion mode that produced Del (coverage label)
 	AM       string `json:"am,omitempty"`   // addition mode that produced Add (coverage label)
@@ -495,6 +500,9 @@ func addPrunes(t *rapid.T, blocks []Block) {
 			for _, s := range b.Learn {
 				tracked[s] = true
 			}
+		}
+		if i > 0 && rapid.IntRange(0, 4).Draw(t, "stale-tip-here") == 0 {
+			b.Stale = rapid.IntRange(1, 5).Draw(t, "stale-adds")
 		}
 		for _, d := range b.Del {
 			delete(tracked, d)
